@@ -32,7 +32,7 @@ inductive DK where
   | invalidMultiplicityNotPresent | incorrectBlockError | incorrectKeywordError | incorrectEndTag
   | unknownSubBlock | unexpectedEOF | stringTooLong | blockRefDeprecated | blockRefTooNew
   | enumRefDeprecated | enumRefTooNew | invalidBegin | invalidIdentifier | a2mlError
-  | additionalTokensError | missingVersionInfo | invalidVersion
+  | additionalTokensError | missingVersionInfo | invalidVersion | nestingTooDeep
   deriving Repr, DecidableEq, Inhabited
 
 def DK.name : DK → String
@@ -45,7 +45,7 @@ def DK.name : DK → String
   | .enumRefDeprecated => "EnumRefDeprecated" | .enumRefTooNew => "EnumRefTooNew" | .invalidBegin => "InvalidBegin"
   | .invalidIdentifier => "InvalidIdentifier" | .a2mlError => "A2mlError"
   | .additionalTokensError => "AdditionalTokensError" | .missingVersionInfo => "MissingVersionInfo"
-  | .invalidVersion => "InvalidVersion"
+  | .invalidVersion => "InvalidVersion" | .nestingTooDeep => "NestingTooDeep"
 
 /-- a diagnostic: class and `error_line` (= `last_token_position` when it was created; 0 where the variant has none) -/
 structure Diag where
